@@ -312,6 +312,22 @@ def _cli_encode(hrp, data, wv, pr, fmt):
     return r["out"]
 
 
+def _cli_addr(d, v, net, fmt, pr):
+    """`bits addr --witness-version V -N net`: to_bitcoin_address(payload, witness_version=V, network=net)"""
+    import cli
+    fl, stdin = _cli_stdin(d, fmt)
+    argv = ["addr", "--wv=%d" % v if v < 0 else "--witness-version=%d" % v, "-N", net] + (["-P"] if pr else [])
+    r = cli.run_main(argv + fl, stdin=stdin)
+    if _cli_refused(r):
+        return _cli_raise(r)
+    out = r["out"]
+    if pr:
+        if not out.endswith(b"\n"):
+            raise CliMalformed("-P given but no newline at the end: %r" % (out[:200],))
+        out = out[:-1]
+    return out
+
+
 IMPL = {
     "segwit_addr": lambda d, v, n: _u().segwit_addr(d, witness_version=v, network=n),
     "to_bitcoin_address_witness": lambda d, n, v: _u().to_bitcoin_address(d, network=n, witness_version=v),
@@ -339,6 +355,7 @@ IMPL = {
     "cli_bech32_decode": _cli_decode_report,
     "cli_bech32_encode": _cli_encode,
     "cli_bech32_segwit_addr": lambda d, v, n, fmt: _cli_encode(NET_HRP[n], d, v, False, fmt),
+    "cli_addr_witness": lambda d, v, n, fmt, pr: _cli_addr(d, v, n, fmt, pr),
 }
 
 
@@ -353,6 +370,8 @@ def model_call(c):
         return ("c06_cli_bech32_encode", list(a[:4]))
     if op == "cli_bech32_segwit_addr":
         return ("c06_segwit_addr", list(a[:3]))     # the encoder must equal segwit_addr
+    if op == "cli_addr_witness":
+        return ("c06_to_bitcoin_address_witness", [a[0], a[2], a[1]])
     return ("c06_" + op, a)
 
 
@@ -368,6 +387,38 @@ NETS = ["mainnet", "testnet", "regtest"]
 CS = CHARSET.encode()
 
 
+# witness programs whose BYTES look like a text encoding of something (hex digits, decimal digits, base64/base58/
+# bech32 alphabet characters, printable ASCII, "0x..." literals, UTF-8 text): an encoder must treat them as bytes
+TEXT_ALPHABETS = {
+    "hexl": b"0123456789abcdef", "hexu": b"0123456789ABCDEF", "hexm": b"0123456789abcdefABCDEF", "dec": b"0123456789",
+    "b64": b"ABCDEFGHIJKLMNOPQRSTUVWXYZabcdefghijklmnopqrstuvwxyz0123456789+/=",
+    "b58": b"123456789ABCDEFGHJKLMNPQRSTUVWXYZabcdefghijkmnopqrstuvwxyz",
+    "bech32": b"qpzry9x8gf2tvdw0s3jn54khce6mua7l", "printable": bytes(range(32, 127)),
+}
+TEXT_KINDS = sorted(TEXT_ALPHABETS) + ["0x", "utf8", "addr-like"]
+
+
+def _text_payload(rng, n, kind):
+    if kind in TEXT_ALPHABETS:
+        return bytes(rng.choice(TEXT_ALPHABETS[kind]) for _ in range(n))
+    if kind == "0x":
+        return (b"0x" + bytes(rng.choice(b"0123456789abcdef") for _ in range(n)))[:n]
+    if kind == "utf8":
+        t = "".join(rng.choice("éßñ中κ") for _ in range(n)).encode("utf-8")
+        t = t[:n]
+        while True:                       # cut on a character boundary, pad with ASCII
+            try:
+                t.decode("utf-8")
+                break
+            except UnicodeDecodeError:
+                t = t[:-1]
+        return t + b"a" * (n - len(t))
+    if kind == "addr-like":               # begins like an address / key / PEM prefix
+        pre = rng.choice([b"bc1q", b"tb1p", b"bcrt1", b"xpub", b"-----BEGIN ", b"1A1zP1", b"3J98t1", b"\x02", b"\x04"])
+        return (pre + bytes(rng.choice(TEXT_ALPHABETS["bech32"]) for _ in range(n)))[:n]
+    raise ValueError(kind)
+
+
 def _contents(rng, n, kind):
     if kind == "zero":
         return bytes(n)
@@ -379,6 +430,8 @@ def _contents(rng, n, kind):
             i = rng.randrange(8 * n)
             b[i // 8] |= 0x80 >> (i % 8)
         return bytes(b)
+    if kind in TEXT_KINDS:
+        return _text_payload(rng, n, kind)
     if kind == "lowbit":          # only the very last bit set: exercises the padding boundary
         b = bytearray(n)
         if n:
@@ -468,6 +521,87 @@ def string_mutants(rng, tier, pool):
         for p in range(len(a)):
             out.append(("non-ascii-everywhere", _sub(a, p, rng.choice([b"\x80", b"\xff", b"\xc3", b"\xe9"]))))
             out.append(("bad-char-everywhere", _sub(a, p, rng.choice([b"1", b"b", b"i", b"o", b" ", b"B"]))))
+    return out
+
+
+_UNI = None
+
+
+def unicode_lookalikes():
+    """{(ascii alphanumeric, kind): [code points > 127]}: code points (up to U+2FFFF) one of whose str.lower() /
+    str.upper() / str.casefold() / NFKD / NFKC forms is that single ASCII character (U+212A KELVIN SIGN -> k,
+    U+017F -> s, fullwidth, circled, mathematical letters and digits, ...), computed from unicodedata"""
+    global _UNI
+    if _UNI is None:
+        import unicodedata
+        tab = {}
+        for cp in range(128, 0x30000):
+            if 0xD800 <= cp <= 0xDFFF:
+                continue
+            ch = chr(cp)
+            for kind, f in (("lower", ch.lower()), ("upper", ch.upper()), ("casefold", ch.casefold()),
+                            ("nfkd", unicodedata.normalize("NFKD", ch)), ("nfkc", unicodedata.normalize("NFKC", ch))):
+                if len(f) == 1 and f.isascii() and f.isalnum():
+                    tab.setdefault((f, kind), []).append(cp)
+        _UNI = tab
+    return _UNI
+
+
+def unicode_mutants(rng, tier, pool):
+    """valid addresses (lower- and upper-case spelling) in which one character - of the hrp, the separator, the
+    version, the payload or the checksum - is replaced by the UTF-8 bytes of a code point that Unicode case mapping
+    or compatibility normalisation would turn into that character; plus invalid UTF-8 / surrogate encodings.
+    Every one contains bytes outside the Bech32 alphabet: all must be refused."""
+    T = tier == "thorough"
+    out = []
+    tab = unicode_lookalikes()
+    addrs = [a for (a, _, _, _) in pool[:60]]
+
+    def region(a, p):
+        sep = a.rindex(b"1")
+        return "hrp" if p < sep else "sep" if p == sep else "version" if p == sep + 1 else \
+            "checksum" if p >= len(a) - 6 else "data"
+    for (f, kind), cps in sorted(tab.items()):
+        fl = f.lower()
+        if fl not in CHARSET + "bcrt1":
+            continue
+        picks = [cps[0], cps[-1]] + ([rng.choice(cps) for _ in range(4)] if T else [])
+        for cp in dict.fromkeys(picks):
+            u8 = chr(cp).encode("utf-8")
+            for upper in (False, True):
+                done = set()
+                for a in rng.sample(addrs, len(addrs)):
+                    sp = a.upper() if upper else a
+                    pos = [p for p in range(len(a)) if chr(a[p]) == fl and region(a, p) not in done]
+                    for p in pos:
+                        r = region(a, p)
+                        if r in done:
+                            continue
+                        done.add(r)
+                        out.append(("unicode-%s-%s-%s" % (kind, r, "upper" if upper else "lower"), sp[:p] + u8 + sp[p + 1:]))
+                    if pos and rng.random() < 0.3:
+                        tgt = sp[pos[0]:pos[0] + 1]
+                        sepi = sp.rindex(b"1")
+                        out.append(("unicode-%s-all-%s" % (kind, "upper" if upper else "lower"),
+                                    sp[:sepi + 1] + sp[sepi + 1:].replace(tgt, u8)))
+                    if len(done) >= 4:
+                        break
+    bad = [b"\xc3", b"\xe2\x84", b"\xc1\xab", b"\xe0\x81\xab", b"\xed\xa0\x80", b"\xed\xb0\x80", b"\xed\xa0\x80\xed\xb0\x80",
+           b"\xf4\x90\x80\x80", b"\xf8\x88\x80\x80\x80", b"\xff", b"\xfe", b"\x80", b"\xbf"]
+    ins = [b"\xef\xbb\xbf", b"\xe2\x80\x8b", b"\xcc\x81", b"\xc2\xa0", b"\xe2\x80\x8e", b"\xc2\xad"]
+    for a in addrs[:12 if T else 4]:
+        for sp in (a, a.upper()):
+            for b_ in bad:
+                p = rng.randrange(len(sp))
+                out.append(("utf8-invalid-subst", sp[:p] + b_ + sp[p + 1:]))
+                out.append(("utf8-invalid-insert", sp[:p] + b_ + sp[p:]))
+            for b_ in ins:
+                p = rng.randrange(len(sp) + 1)
+                out.append(("unicode-invisible-insert", sp[:p] + b_ + sp[p:]))
+            out.append(("unicode-invisible-insert", b"\xef\xbb\xbf" + sp))
+    # genuine case mappings first (their disagreements are failing inputs of the property itself)
+    prio = {"unicode-lower": 0, "unicode-casefold": 1, "unicode-upper": 2}
+    out.sort(key=lambda e: prio.get("-".join(e[0].split("-")[:2]), 3))
     return out
 
 
@@ -574,6 +708,15 @@ def gen_cases(rng, tier):
                     kinds = ["rand", "zero", "ones", "bit", "lowbit"]
                 for kind in kinds:
                     enc_items.append(("enc-%s-%s" % ("ok" if prog_allowed(v, n) else "v0len", kind), _contents(rng, n, kind), v, net))
+    # programs whose bytes look like text (every legal length x every kind; 64 = a 32-byte hash written in hex)
+    text_items = []
+    for n in list(range(2, 41)) + [64]:
+        for kind in TEXT_KINDS:
+            vs = [rng.randrange(1, 17)] + ([0] if n in (20, 32) else []) + ([1, 16] if T else [])
+            for v in dict.fromkeys(vs):
+                text_items.append(("enc-ok-text-%s" % kind if prog_allowed(v, n) else "enc-len-64-text-%s" % kind,
+                                   _contents(rng, n, kind), v, rng.choice(NETS)))
+    enc_items += text_items
     # out-of-domain arguments of the encoder
     for net in NETS:
         for n in (0, 1, 41, 42, 64, 83, 84, 85, 86, 87, 88, 100):
@@ -584,10 +727,11 @@ def gen_cases(rng, tier):
         enc_items.append(("enc-network-unknown", rng.randbytes(20), 0, net))
     # in-domain triples first, so that the first reported disagreements are failing inputs of the property itself
     enc_items.sort(key=lambda e: not e[0].startswith("enc-ok"))
-    single = enc_items if T else [e for i, e in enumerate(enc_items) if i % 3 == 0 or not e[0].startswith("enc-ok")]
+    single = enc_items if T else [e for i, e in enumerate(enc_items)
+                                  if i % 3 == 0 or not e[0].startswith("enc-ok") or "-text-" in e[0]]
     for (cls, d, v, net) in single:
         out.append(case(cls, "segwit_addr", d, v, net, strict=True))
-    for (cls, d, v, net) in single[::4]:
+    for (cls, d, v, net) in single[::4] + [e for i, e in enumerate(text_items) if len(e[1]) in (20, 32, 40, 64) or i % 3 == 0]:
         out.append(case("tba-" + cls, "to_bitcoin_address_witness", d, net, v, strict=True))
     for i in range(0, len(enc_items), 150):
         out.append(case("enc-batch", "encode_batch", [(d, v, net) for (_, d, v, net) in enc_items[i:i + 150]]))
@@ -598,6 +742,7 @@ def gen_cases(rng, tier):
     strs += [("roundtrip-valid", a) for (a, _, _, _) in (pool if T else pool[::3])]
     strs += structural_strings(rng, tier)
     strs += string_mutants(rng, tier, pool)
+    strs += unicode_mutants(rng, tier, pool)
     for _ in range(2000 if T else 150):
         strs.append(("rand-bytes", rng.randbytes(rng.randrange(0, 100))))
         k = rng.randrange(0, 80)
@@ -628,7 +773,8 @@ def gen_cases(rng, tier):
     for cls, s in uniq:
         k = per_class.get(cls, 0)
         per_class[cls] = k + 1
-        if k >= (limit if cls not in light or T else 12) or (T and cls in light and k >= 300):
+        is_light = cls in light or cls.startswith(("unicode-nfk", "utf8-", "unicode-invisible"))
+        if k >= (limit if not is_light or T else 6) or (T and is_light and k >= (300 if cls in light else 40)):
             continue
         for op, strict in per_string_ops:
             out.append(case(cls, op, s, strict=strict))
@@ -648,6 +794,7 @@ def gen_cases(rng, tier):
              "pad-nonzero", "pad-nonzero-low", "pad-overlong", "pad-overlong2", "data-checksum-only", "data-version-only",
              "data-short", "version-17-31", "hrp-wrong", "struct-fixed", "no-letters", "case-flip1", "case-upper-hrp",
              "case-upper-data", "extend-space", "subst1", "verpos-rechecksum", "base58check-valid"}
+    focus |= {c_ for c_, _ in uniq if c_.startswith("unicode-lower") or c_.startswith("unicode-casefold")}
     cli_strs = [("cli-forbidden-length", b"bc1pw5dgrnzv"),                                 # v1, 1 byte
                 ("cli-forbidden-length", b"BC1QR508D6QEJXTDG4Y5R3ZARVARYV98GJ9P"),         # v0, 16 bytes
                 ("cli-forbidden-length", raw_encode("bc", [1] + _vals(bytes(range(41))), BECH32M)),
@@ -696,6 +843,21 @@ def gen_cases(rng, tier):
                                 (b"a" * 83, b"", None, False, "raw"), (b"a" * 84, b"", None, False, "raw"),
                                 (b"BC", rng.randbytes(20), 0, False, "raw"), (b"b~", rng.randbytes(5), 3, True, "x")]:
         out.append(case("cli-enc-edge", "cli_bech32_encode", h, d, wv, pr, fmt, strict=True))
+    for j, (cls, d, v, net) in enumerate(text_items):
+        if len(d) in (20, 32, 40, 64) or (T and j % 2 == 0) or j % 7 == 0:
+            fmt = ["raw", "hex", "raw", "bin"][j % 4]
+            out.append(case("cli-" + cls, "cli_bech32_segwit_addr", d, v, net, fmt, strict=True))
+            out.append(case("cli-addr-" + cls, "cli_addr_witness", d, v, net, fmt, j % 5 == 0, strict=True))
+    j = 0
+    for net in NETS:
+        for v in range(17):
+            for n in ([20, 32] if v == 0 else [2, 20, 32, 40]):
+                j += 1
+                out.append(case("cli-addr", "cli_addr_witness", _contents(rng, n, rng.choice(["rand", "zero", "ones"])), v, net,
+                                fmts[j % len(fmts)], j % 4 == 0, strict=True))
+    for (d, v, net) in [(rng.randbytes(20), 17, "mainnet"), (rng.randbytes(20), -1, "testnet"), (rng.randbytes(1), 1, "mainnet"),
+                        (rng.randbytes(41), 1, "regtest"), (rng.randbytes(87), 1, "mainnet"), (b"", 0, "mainnet")]:
+        out.append(case("cli-addr-edge", "cli_addr_witness", d, v, net, "raw", False))
     for v in (-1, -2, -32, 17, 18, 31, 32, 255):
         for net in NETS:
             out.append(case("cli-enc-version-out", "cli_bech32_segwit_addr", rng.randbytes(rng.choice([20, 32])), v, net,
@@ -814,7 +976,7 @@ def shrink(c):
         return
     if isinstance(a0, (bytes, bytearray)) and c["op"] not in ("segwit_addr", "to_bitcoin_address_witness", "bech32_encode",
                                                               "bech32_create_checksum", "bech32_verify_checksum",
-                                                              "cli_bech32_encode", "cli_bech32_segwit_addr"):
+                                                              "cli_bech32_encode", "cli_bech32_segwit_addr", "cli_addr_witness"):
         for b in shrink_bytes(a0):
             c2 = dict(c)
             c2["args"] = [b] + list(c["args"][1:])
@@ -1030,6 +1192,18 @@ def prop_oracle(c):
         return _check_cli_decode(_u(), c["args"][0], c["args"][1])
     if c["op"] == "cli_bech32_encode":
         return _check_cli_encode(_u(), *c["args"])
+    if c["op"] == "cli_addr_witness":
+        d, v, n, fmt, pr = c["args"]
+        r = _check_encode(_u(), d, v, n)
+        if r or n not in HRPS or not prog_allowed(v, len(d)):
+            return r
+        try:
+            got = _cli_addr(d, v, n, fmt, pr)
+        except BaseException as e:  # noqa
+            return "`bits addr --witness-version %d -N %s` refused an allowed %d-byte program (%s)" % (v, n, len(d), type(e).__name__)
+        if got != ref_encode(HRPS[n], v, d):
+            return "`bits addr --witness-version %d -N %s` on %s gives %r; BIP173/BIP350 give %r" % (v, n, d.hex(), got, ref_encode(HRPS[n], v, d))
+        return None
     if c["op"] == "cli_bech32_segwit_addr":
         d, v, n, fmt = c["args"]
         return _check_encode(_u(), d, v, n) or _check_cli_encode(_u(), NET_HRP[n], d, v, False, fmt)
@@ -1164,7 +1338,7 @@ def _coq_triple_result(mr):
 def coq_equation(c, mr):
     op = c["op"]
     a = c["args"]
-    if op in ("classify_batch", "encode_batch", "cli_bech32_decode", "cli_bech32_encode"):
+    if op in ("classify_batch", "encode_batch", "cli_bech32_decode", "cli_bech32_encode", "cli_addr_witness"):
         return None
     if op == "cli_bech32_segwit":
         op = "spec_decode"
